@@ -159,6 +159,13 @@ def mps_ops():
         "fuse_multibonds_": lambda tn, r: tn.fuse_multibonds_(),
         "copy.contract_tags_": lambda tn, r: tn.copy().contract_tags_([tn.site_tag(0), tn.site_tag(1)], which="any"),
         "insert_operator": lambda tn, r: tn.gate_with_op_lazy(qtn.MPO_identity(tn.L, phys_dim=tn.phys_dim(0))),
+        # the SAME operator object applied lazily twice (power / Krylov style): its bonds are inside the state the second time
+        "NOHYPER:same_operator_lazily_twice": lambda tn, r: (lambda A: tn.gate_with_op_lazy(A).gate_with_op_lazy(A))(
+            qtn.MPO_rand_herm(tn.L, 2, phys_dim=tn.phys_dim(0), seed=r.randrange(1000))),
+        "NOHYPER:same_operator_lazily_thrice_inplace": lambda tn, r: (lambda A: tn.gate_with_op_lazy_(A).gate_with_op_lazy_(A).gate_with_op_lazy_(A))(
+            qtn.MPO_rand_herm(tn.L, 2, phys_dim=tn.phys_dim(0), seed=r.randrange(1000))),
+        "NOHYPER:operator_labelled_like_state": lambda tn, r: (lambda A: tn.gate_with_op_lazy(
+            A.reindex({A.bond(0, 1): tn.bond(0, 1)})))(qtn.MPO_rand_herm(tn.L, 2, phys_dim=tn.phys_dim(0), seed=r.randrange(1000))),
         "gate_with_mpo": lambda tn, r: tn.gate_with_mpo(qtn.MPO_rand_herm(tn.L, 2, phys_dim=tn.phys_dim(0), seed=r.randrange(1000)), max_bond=r.choice([None, 4])),
         "gate_with_submpo_": lambda tn, r: (lambda ij: tn.gate_with_submpo_(qtn.MatrixProductOperator(
             qtn.MPO_rand_herm(ij[1] - ij[0] + 1, 2, phys_dim=tn.phys_dim(0), seed=r.randrange(1000)).arrays,
@@ -178,6 +185,7 @@ def mpo_ops():
         "canonicalize_": lambda tn, r: tn.canonicalize_(r.randrange(tn.L)),
         "add_MPO": lambda tn, r: tn.add_MPO(tn.copy(), compress=r.random() < 0.5),
         "apply(mpo)": lambda tn, r: tn.apply(tn.copy(), compress=r.random() < 0.5),
+        "NOHYPER:apply(self, lazily)": lambda tn, r: tn.apply(tn, contract=False),
         "apply(mps)": lambda tn, r: tn.apply(qtn.MPS_rand_state(tn.L, 2, phys_dim=tn.phys_dim(0), seed=r.randrange(1000))),
         "H": lambda tn, r: tn.H,
         "reindex_upper_sites_": lambda tn, r: tn.reindex_upper_sites_(r.choice(["u{}", "k{}"])),
@@ -288,6 +296,8 @@ def structured_histories(seed, ncases, nsteps, tid0):
                 h.hold(got)
             del got, cur
             h.log("%s.%s" % (mk, name), {})
+            if name.startswith("NOHYPER:"):
+                h.recs[-1]["nohyper"] = [h.cur]
             names["%s.%s" % (mk, name)] = names.get("%s.%s" % (mk, name), 0) + 1
         recs += h.recs
     return recs, names, refused
